@@ -10,9 +10,6 @@ Open Scope N_scope.
 
 
 
-Definition mask_of (n : nat) (m : N) : list bool :=
-  map (fun i => N.testbit m (N.of_nat i)) (seq 0 n).
-
 (* events of one operation as (protocol, kind): 1 established 2 closed 3 inbound substream
    4 outbound substream 5 substream open failure *)
 Definition pe_of_note (x : note) : list (nat * N) :=
@@ -44,7 +41,7 @@ Definition ustep (n : nat) (u : ustate) (o : N * (N * N)) : ustate * list N :=
   match op with
   | 1 => (mkU (set_nth ai false (u_alive u)) (u_mgr u), NA)
   | 5 => (mkU (u_alive u) false, NA)
-  | 2 => let '(ns, ok) := report_established (u_alive u) (mask_of n b) in
+  | 2 => let '(ns, ok) := report_established (u_alive u) in
          (u, b2n (negb ok) :: enc_notes ns ++ [0])
   | 3 => let '(ns, ok) := report_closed (u_alive u) (u_mgr u) in
          (u, b2n (negb ok) :: enc_notes ns ++ [0])
@@ -177,14 +174,14 @@ Definition dial_code (ret : N) : N :=
   if ret =? V.Mgr.Model.RET_OK then 0 else if ret =? V.Mgr.Model.RET_CONNECTED then 3 else 9.
 
 (* a connection reaches the manager of node w (peer `p`, id `c`) and is accepted *)
-Definition establish (n : nat) (w : wnode) (p : V.Mgr.Model.peer) (c : V.Mgr.Model.conn) (listener : bool) (mask : N)
+Definition establish (n : nat) (w : wnode) (p : V.Mgr.Model.peer) (c : V.Mgr.Model.conn) (listener : bool)
   : wnode * list obs :=
   let '(w1, (os, o1)) := wstep n w (NMgr (V.Mgr.Model.TrEstablished p c listener false)) in
   if has_accept c os then
-    let '(w2, o2) := wsteps n w1 [NAccept c (mask_of (n + 3) mask)] in (w2, o1 ++ o2)
+    let '(w2, o2) := wsteps n w1 [NAccept c] in (w2, o1 ++ o2)
   else (w1, o1).
 
-Definition do_connect (n : nat) (ma mb : N) (w : world) : world * (N * ev2) :=
+Definition do_connect (n : nat) (w : world) : world * (N * ev2) :=
   if negb (w_up (wa w)) then (w, (2, ([], []))) else
   let '(a1, (os, oa1)) := wstep n (wa w) (NMgr (V.Mgr.Model.CmdDialAddr PB false)) in
   let rc := dial_code (find_ret os) in
@@ -192,10 +189,10 @@ Definition do_connect (n : nat) (ma mb : N) (w : world) : world * (N * ev2) :=
   | None => (mkWorld a1 (wb w), (rc, (oa1, [])))
   | Some c =>
       if w_up (wb w) then
-        let '(a2, oa2) := establish n a1 PB c false ma in
+        let '(a2, oa2) := establish n a1 PB c false in
         let cb := V.Mgr.Model.next_conn (nd_mgr (w_nd (wb w))) in
         let '(b1, ob1) := wsteps n (wb w) [NMgr V.Mgr.Model.AllocConn; NMgr (V.Mgr.Model.TrPendingInbound cb)] in
-        let '(b2, ob2) := establish n b1 PA cb true mb in
+        let '(b2, ob2) := establish n b1 PA cb true in
         let '(w3, o3) := after n (mkWorld a2 b2) in
         (w3, (rc, app2 (oa1 ++ oa2, ob1 ++ ob2) o3))
       else
@@ -271,32 +268,27 @@ Definition do_shutdown (n : nat) (w : world) : world * (N * ev2) :=
     let '(w2, o2) := after n (mkWorld (wa w) (mkW (w_nd (wb w)) (w_pconn (wb w)) false)) in (w2, (0, o2))
   else (w, (2, ([], []))).
 
-(* A dials B while protocol y of node x exits. Both orders are legitimate; the implementation's
-   choice comes in as an oracle: c = 0 the connection was accepted first, else c = 1 + 2*maskA +
-   256*maskB and the exit came first. The racing protocol's own observer is not printed (it may or
-   may not read its last events before it exits). *)
+(* A dials B while protocol y of node x exits. Whichever comes first, the connection is accepted
+   (a protocol that has exited is skipped) and everybody else sees the same; only the racing
+   protocol's own observer differs (it may or may not read its last events before it exits), so it
+   is not printed. *)
 Definition drop_obs (x : N) (y : nat) (o : ev2) : ev2 :=
   let f := filter (fun p : obs => negb (fst p =? S y)%nat) in
   if x =? 0 then (f (fst o), snd o) else (fst o, f (snd o)).
 
-Definition do_race (n : nat) (x : N) (y : nat) (c : N) (w : world) : world * (N * ev2) :=
-  if N.odd c then
-    let '(w1, (_, o1)) := do_drop n x y w in
-    let '(w2, (rc, o2)) := do_connect n ((c / 2) mod 128) (c / 256) w1 in
-    (w2, (rc, drop_obs x y (app2 o1 o2)))
-  else
-    let '(w1, (rc, o1)) := do_connect n 0 0 w in
-    let '(w2, (_, o2)) := do_drop n x y w1 in
-    (w2, (rc, drop_obs x y (app2 o1 o2))).
+Definition do_race (n : nat) (x : N) (y : nat) (w : world) : world * (N * ev2) :=
+  let '(w1, (rc, o1)) := do_connect n w in
+  let '(w2, (_, o2)) := do_drop n x y w1 in
+  (w2, (rc, drop_obs x y (app2 o1 o2))).
 
 Definition estep (n : nat) (w : world) (s : N * (N * (N * N))) : world * (N * ev2) :=
   let '(op, (a, (b, c))) := s in
   match op with
   | 10 => do_drop n a (N.to_nat b) w
-  | 11 => do_connect n b c w
+  | 11 => do_connect n w
   | 12 => do_open n a (N.to_nat b) false w
   | 13 => do_open n a (N.to_nat b) true w
-  | 14 => do_race n a (N.to_nat b) c w
+  | 14 => do_race n a (N.to_nat b) w
   | 15 => do_force n a (N.to_nat b) w
   | 16 => do_cut n w
   | 17 => do_idle n w
@@ -540,38 +532,6 @@ Definition prop_ok (case trace : list N) : bool :=
   | _, _ => false
   end.
 
-(* Known finding class 1 (F-C07b): a connection is established while a protocol of the node has
-   exited. The transports hold a snapshot of the protocol senders, report_connection_established
-   fails on the dead one, the manager rolls the connection back. Recognised exactly: the case
-   contains such an attempt, and the trace is the one the faithful model predicts. *)
-Fixpoint unit_in_class (u : ustate) (n : nat) (ops : list (N * (N * N))) : bool :=
-  match ops with
-  | [] => false
-  | o :: r => ((fst o =? 2) && negb (all_alive (u_alive u))) || unit_in_class (fst (ustep n u o)) n r
-  end.
-
-Fixpoint e2e_in_class (n : nat) (w : world) (steps : list (N * (N * (N * N)))) : bool :=
-  match steps with
-  | [] => false
-  | s :: r =>
-      (((fst s =? 11) || (fst s =? 14)) && w_up (wa w) && w_up (wb w) &&
-       negb (all_alive (nd_alive (w_nd (wa w))) && all_alive (nd_alive (w_nd (wb w))))) ||
-      (* the exit won the race against the accept *)
-      ((fst s =? 14) && w_up (wa w) && w_up (wb w) && N.odd (snd (snd (snd s)))) ||
-      e2e_in_class n (fst (estep n w s)) r
-  end.
-
-Definition known_class (case trace : list N) : N :=
-  let in_class :=
-    match case with
-    | 0 :: r => match decode_unit r with
-                | Some (n, ops) => unit_in_class (mkU (repeat true n) true) n ops
-                | None => false
-                end
-    | 1 :: r => match decode_e2e r with
-                | Some (n, (_, steps)) => e2e_in_class n (world_init n) steps
-                | None => false
-                end
-    | _ => false
-    end in
-  if in_class && nlist_eqb trace (run_case case) then 1 else 0.
+(* No known-finding classes any more (F-C07a and F-C07b are repaired): every failing case is a
+   violation. *)
+Definition known_class (case trace : list N) : N := 0.
